@@ -38,7 +38,9 @@ Call(e) ==
      \* with nobody refusing, a satisfiable level succeeds
      /\ (failing = {} /\ slow = {} /\ ~AllowedErr(lay, e.level)) => e.result = "ok"
 
-Ok(e) == IF e.ev = "call" THEN Call(e) ELSE e.replicated_everywhere
+\* final : (C01 at system level) after operations issued at level None on real clusters every node's storage holds
+\*         the same stamp, kind and bytes for the document
+Ok(e) == IF e.ev = "call" THEN Call(e) ELSE IF e.ev = "final" THEN e.all_equal ELSE e.replicated_everywhere
 
 Init == l = 1 /\ bad = <<>>
 Next == /\ l <= Len(Rec) /\ l' = l + 1
